@@ -491,6 +491,29 @@ int open_data_file(struct uftrace_opts *opts, struct uftrace_data *handle)
 			saved_errno = ENODATA;
 			goto out;
 		}
+
+		/*
+		 * An incomplete task file may lack the TASK/FORK line of a tid
+		 * listed in the info file.  The readers use task->t freely, so
+		 * give such a tid a task without session or parent.
+		 */
+		for (i = 0; i < handle->info.nr_tid; i++) {
+			struct uftrace_msg_task tmsg = {
+				.pid = handle->info.tids[i],
+				.tid = handle->info.tids[i],
+			};
+			struct uftrace_task *t;
+
+			if (find_task(sessions, tmsg.tid))
+				continue;
+
+			pr_dbg("no task info for tid %d\n", tmsg.tid);
+			create_task(sessions, &tmsg, false);
+
+			t = find_task(sessions, tmsg.tid);
+			if (t && t->comm[0] == '\0')
+				strcpy(t->comm, "unknown");
+		}
 	}
 
 	if (handle->hdr.info_mask & ARG_SPEC) {
